@@ -13,7 +13,7 @@ RULE = ("cases = histories (<=25 steps, <=6 ExplicitTreeAut and <=6 ExplicitFini
         "slice of all valid sequences of <=3 steps from a 20-step universe after a fixed two-object prefix, targeted families (copy-then-mutate at "
         "each of the three sharing levels in both directions, Clear/EraseFinalStates on shared storage, trimming results that share the map or "
         "single clusters, moves, operands destroyed or cleared after an operation, cache churn before replays, self-assignment, the two-level word "
-        "automaton counterparts) and random histories; a history is non-trivial when it mutates an object while another live object shows the same "
+        "automaton counterparts, pipelines trim -> union (operand, its trimmed result or a copy on either side) -> trim) and random histories; a history is non-trivial when it mutates an object while another live object shows the same "
         "non-empty value (storage possibly shared)")
 TRUSTED_BASE = [
     "Coq 8.16.1 kernel (coqc, full .vo build); no vm_compute/native_compute in the C11 theorems",
@@ -499,8 +499,45 @@ def symbol_merge(rng):
     if rng.random() < 0.4: steps.append(("tU", 5, 0))
     return fmt(steps)
 
+def chain_tree(rng, h, base, dirty):
+    """a small chain automaton on the states base..: clean (every rule productive and reachable from the final state: trimming shares the
+    whole table) or dirty (an unproductive rule with a final parent, an owner nothing final leads to)"""
+    k = rng.randint(1, 3)
+    steps = [("tN", h), ("tR", h, (0, base, ()))]
+    for i in range(k): steps.append(("tR", h, (1, base + i + 1, (base + i,))))
+    if rng.random() < 0.4: c = base + rng.randrange(k + 1); steps.append(("tR", h, (2, base + k, (c, c))))
+    steps.append(("tF", h, base + k))
+    if dirty:
+        if rng.random() < 0.8: steps += [("tR", h, (1, base + 5, (base + 4,))), ("tF", h, base + 5)]     # base+4 owns no rule: unproductive, final
+        if rng.random() < 0.5: steps.append(("tR", h, (0, base + 6, ())))                                 # productive, unreachable
+    return steps
+
+def pipeline(rng):
+    """results fed into further library operations: trim (or emptiness-style read) of an operand, then a union whose LEFT or right operand is
+    that operand, its trimmed result or a copy, then trimming of the union — every result must be the function of the operands' values, whatever
+    the objects share internally and whatever was computed on them before"""
+    steps = chain_tree(rng, 0, 0, rng.random() < 0.3) + chain_tree(rng, 1, 10, rng.random() < 0.8)
+    free = [2, 3, 4, 5]
+    lefts = [0]
+    pre = rng.random()
+    if pre < 0.75:
+        h = free.pop(0); steps.append((rng.choice(["tL", "tL", "tU"]), h, 0)); lefts.append(h)
+    if rng.random() < 0.35 and free:
+        h = free.pop(0); steps.append(("tC", h, rng.choice(lefts))); lefts.append(h)
+    if rng.random() < 0.2: steps.append((rng.choice(["tL", "tU"]), free.pop(0), 1))
+    if not free: return fmt(steps)
+    u = free.pop(0)
+    a, b = rng.choice(lefts), 1
+    if rng.random() < 0.25: a, b = b, a
+    steps.append((rng.choice(["tJ", "tJ", "tY"]), u, a, b))
+    if rng.random() < 0.25: steps.append(rng.choice([("tD", 0), ("tX", 0), ("tR", 0, (0, 3, ()))]))
+    if free: steps.append((rng.choice(["tL", "tL", "tU"]), free.pop(0), u))
+    if free and rng.random() < 0.5: steps.append((rng.choice(["tL", "tU"]), free.pop(0), u))
+    return fmt(steps)
+
 def cases(rng, tier):
     cs = [(l, "corpus") for l in CORPUS]
+    cs += [(pipeline(rng), "targeted_pipeline") for _ in range(400 if tier == "quick" else 6000)]
     cs += [(symbol_merge(rng), "targeted_symbol_merge") for _ in range(300 if tier == "quick" else 5000)]
     cs += [(large_trim(rng), "targeted_large_trim") for _ in range(150 if tier == "quick" else 2000)]
     cs += [(l, "exhaustive") for l in exhaustive(3 if tier == "quick" else 4)]
